@@ -723,6 +723,14 @@ def c08_case(ctx, seed):
             scenario = "recompact"
         ctx.evaluations += 1
         ctx.count("e2e_log_%s" % scenario)
+        # what a ninja that died in the middle of rewriting the log leaves next to it: the temporary file of a recompaction or of
+        # a restat, with a part of the new log in it.  The next rewrite starts over; the leftover neither stops it nor ends up in it.
+        if rng.random() < 0.5:
+            for tmpname in rng.sample([".ninja_log.recompact", ".ninja_log.restat"], rng.randint(1, 2)):
+                cut = rng.randint(0, len(log))
+                with open(t.path(tmpname), "wb") as f:
+                    f.write(log[:cut] if rng.random() < 0.7 else b"# ninja log v7\n1\t2\t3\tghost.o\tdeadbeef\n")
+            ctx.count("e2e_log_leftover_temporary_files")
         if scenario in ("dropped-on-disk", "dropped-deleted"):
             # (not the generator statement: its output is an input of others, which could not be built without it)
             used = {i_ for s_ in sc["stmts"] for i_ in s_["ins"]}
@@ -825,7 +833,7 @@ def c08_case(ctx, seed):
 
 def c08_scenarios(ctx):
     rng = random.Random(ctx.seed * 17 + 808)
-    seeds = [rng.randint(1, 10 ** 9) for _ in range(16 if ctx.tier == "quick" else 300)]
+    seeds = [rng.randint(1, 10 ** 9) for _ in range(28 if ctx.tier == "quick" else 400)]
     from .checks.c07 import safe
     parallel(lambda s: safe(ctx, c08_case, ctx, s), seeds)
 
